@@ -16,40 +16,108 @@ theorem caller_enabled (sc : Scenario) (sched : List Actor) :
     let s := run (init sc) sched
     s.caller.isNone → (s.ctxDone ∨ s.resCh.isSome ∨ s.panCh.isSome) →
     (step s .callerCtx).isSome ∨ (step s .callerRes).isSome ∨ (step s .callerPan).isSome := by
-  sorry
+  intro s hn h
+  have hcn : s.caller = none := by simpa using hn
+  rcases h with h | h | h
+  · left; simp [step, hcn, h]
+  · right; left
+    obtain ⟨e, he⟩ := Option.isSome_iff_exists.mp h
+    simp [step, hcn, he]
+  · right; right
+    obtain ⟨v, hv⟩ := Option.isSome_iff_exists.mp h
+    simp [step, hcn, hv]
 
 /-- and every such step makes the wrapper return (or re-panic) at once -/
 theorem caller_step_returns (s s' : State) (a : Actor) (ha : a = .callerCtx ∨ a = .callerRes ∨ a = .callerPan)
     (h : step s a = some s') : s'.caller.isSome := by
-  sorry
+  rcases ha with rfl | rfl | rfl
+  · simp only [step] at h
+    split at h
+    · cases h; rfl
+    · cases h
+  · simp only [step] at h
+    split at h
+    · cases h; rfl
+    · cases h
+  · simp only [step] at h
+    split at h
+    · cases h; rfl
+    · cases h
 
 /-- WHAT THE CALLER GETS: the function's own outcome (same error object / same panic value, on the caller's
     goroutine), or the context's error — the latter only if the context has ended -/
 theorem result_allowed (sc : Scenario) (sched : List Actor) :
     let s := run (init sc) sched
     (s.caller = some (.fn sc.outcome) ∧ s.fnFinished) ∨ (s.caller = some .ctxErr ∧ s.ctxDone) ∨ s.caller = none := by
-  sorry
+  intro s
+  have hi : Inv sc s := inv_run sc sched
+  have hsc := hi.sc_eq
+  rcases hi.phase with h | h | h | h
+  · rcases h.2.2.2.2.2 with hc | hc
+    · exact Or.inr (Or.inr hc)
+    · exact Or.inr (Or.inl ⟨hc, (hi.ctxErr hc).1⟩)
+  · rcases h.2.2.2.1 with hc | hc
+    · exact Or.inr (Or.inr hc)
+    · exact Or.inr (Or.inl ⟨hc, (hi.ctxErr hc).1⟩)
+  · exact Or.inl ⟨by rw [← hsc]; exact h.2.2.2.2.2, hi.wd_fin h.1⟩
+  · have hc := (hi.spawn h.2.2.2.2.2).2
+    exact Or.inr (Or.inl ⟨hc, (hi.ctxErr hc).1⟩)
 
 /-- AT MOST ONCE: the outcome is surfaced at most once, as the wrapper's own result/panic or through GoLostErrors,
     and whatever GoLostErrors is told is the function's outcome -/
 theorem at_most_once (sc : Scenario) (sched : List Actor) :
     let s := run (init sc) sched
     surfaced s ≤ 1 ∧ (∀ o ∈ s.lost, o = sc.outcome) ∧ (sc.lostErrors = false → s.lost = []) := by
-  sorry
+  intro s
+  have hi : Inv sc s := inv_run sc sched
+  have hsc := hi.sc_eq
+  rcases hi.phase with h | h | h | h
+  · have hl := h.2.2.2.1
+    refine ⟨?_, by simp [hl], fun _ => hl⟩
+    rcases h.2.2.2.2.2 with hc | hc <;> simp [surfaced, hc, hl]
+  · have hl := h.2.1
+    refine ⟨?_, by simp [hl], fun _ => hl⟩
+    rcases h.2.2.2.1 with hc | hc <;> simp [surfaced, hc, hl]
+  · have hl := h.2.2.2.1
+    refine ⟨?_, by simp [hl], fun _ => hl⟩
+    simp [surfaced, h.2.2.2.2.2, hl]
+  · have hl := h.2.2.2.1
+    have hw := hi.spawn h.2.2.2.2.2
+    refine ⟨?_, by simp [hl, hsc], ?_⟩
+    · simp [surfaced, hw.2, hl]
+    · intro hf; rw [hsc, hf] at hw; exact absurd hw.1 (by simp)
 
 /-- EXACTLY ONCE when GoLostErrors is configured: at quiescence, if the function finished, its outcome has been
     surfaced exactly once -/
 theorem exactly_once_if_configured (sc : Scenario) (sched : List Actor)
     (hq : quiescent (run (init sc) sched) = true) (hl : sc.lostErrors = true) (hf : (run (init sc) sched).fnFinished = true) :
     surfaced (run (init sc) sched) = 1 := by
-  sorry
+  have hi : Inv sc (run (init sc) sched) := inv_run sc sched
+  generalize run (init sc) sched = s at hq hf hi
+  have hsc := hi.sc_eq
+  have hq := (quiescent_iff s).mp hq
+  have hwd : s.workerDone = true := worker_done_of_quiescent hq hf
+  rcases hi.phase with h | h | h | h
+  · rw [hwd] at h; exact absurd h.1 (by simp)
+  · exfalso
+    exact in_channel_not_quiescent hi hq (by rw [hsc]; exact Or.inl hl) h
+  · simp [surfaced, h.2.2.2.2.2, h.2.2.2.1]
+  · have hw := hi.spawn h.2.2.2.2.2
+    simp [surfaced, hw.2, h.2.2.2.1]
 
 /-- the worker never blocks: when the function has finished, delivering the outcome is always possible (the
     capacity-1 channel it sends into is empty) -/
 theorem worker_never_blocks (sc : Scenario) (sched : List Actor) :
     let s := run (init sc) sched
     s.fnFinished = true → s.workerDone = false → (step s .worker).isSome ∧ s.resCh = none ∧ s.panCh = none := by
-  sorry
+  intro s hf hwd
+  have hi : Inv sc s := inv_run sc sched
+  refine ⟨?_, ?_⟩
+  · simp only [step, hf, hwd]
+    cases s.sc.outcome <;> simp
+  · rcases hi.phase with h | h | h | h
+    · exact ⟨h.2.1, h.2.2.1⟩
+    all_goals (rw [hwd] at h; exact absurd h.1 (by simp))
 
 /-- NO HELPER OUTLIVES THE FUNCTION: at quiescence, once the function has finished, the worker is done, and the
     waiter — if one was started — is done too -/
@@ -57,13 +125,28 @@ theorem helpers_terminate (sc : Scenario) (sched : List Actor)
     (hq : quiescent (run (init sc) sched) = true) (hf : (run (init sc) sched).fnFinished = true) :
     let s := run (init sc) sched
     s.workerDone = true ∧ (s.waiterSpawned = true → s.waiterDone = true) := by
-  sorry
+  intro s
+  have hi : Inv sc s := inv_run sc sched
+  have hq := (quiescent_iff s).mp hq
+  have hwd : s.workerDone = true := worker_done_of_quiescent hq hf
+  refine ⟨hwd, fun hw => ?_⟩
+  rcases hi.phase with h | h | h | h
+  · rw [hwd] at h; exact absurd h.1 (by simp)
+  · exfalso
+    exact in_channel_not_quiescent hi hq (Or.inr hw) h
+  · have hc := (hi.spawn hw).2
+    rw [h.2.2.2.2.2] at hc; exact absurd hc (by simp)
+  · exact h.2.2.2.2.1
 
 /-- the waiter is started only when the context ended first AND GoLostErrors is configured -/
 theorem waiter_only_if_needed (sc : Scenario) (sched : List Actor) :
     let s := run (init sc) sched
     s.waiterSpawned = true → sc.lostErrors = true ∧ s.caller = some .ctxErr := by
-  sorry
+  intro s hw
+  have hi : Inv sc s := inv_run sc sched
+  have := hi.spawn hw
+  rw [hi.sc_eq] at this
+  exact this
 
 /-- non-vacuity: the context ends first, the function later panics: Go returned the context's error and the panic
     value reaches GoLostErrors, once -/
